@@ -33,6 +33,8 @@ pub enum T2Kind {
     /// E (server) shuts down gracefully at an arbitrary moment of a legal exchange while
     /// keep-alive pings are in flight; the peer never closes first
     Graceful,
+    /// E (server) pushes while its writer is blocked; the client says GOAWAY in the meantime
+    PushGoaway,
     /// discard paths followed by a window exhaustion probe
     Exhaust,
 }
@@ -89,6 +91,8 @@ pub struct T2Plan {
     pub e_pings: Option<(u32, u32)>,
     /// streams the peer opens only after the shutdown handshake has completed
     pub late_streams: Vec<u32>,
+    /// the (hostile) peer never acknowledges E's SETTINGS
+    pub peer_withholds_settings_ack: bool,
 }
 
 fn simple_server_prog(t: &Tape) -> ServerStreamProg {
@@ -272,6 +276,7 @@ pub fn draw_t2(t: &Tape, p: &T2Profile) -> T2Plan {
         e_actions: vec![],
         e_pings: None,
         late_streams: vec![],
+        peer_withholds_settings_ack: false,
     };
     let exotic = matches!(p.kind, T2Kind::Hpack);
     // ---- the legal skeleton
@@ -367,6 +372,38 @@ pub fn draw_t2(t: &Tape, p: &T2Profile) -> T2Plan {
             }
             plan.script.push(PeerOp::Barrier);
             // no Fin: the peer keeps its side open; E has to close
+        }
+        T2Kind::PushGoaway => {
+            plan.label = "push-goaway".into();
+            plan.expect = Expect::Unspecified("GOAWAY from the client while pushes are queued: anything orderly");
+            // E's handlers push; its writer is stalled (healed by the driver at the first
+            // quiescence), so PUSH_PROMISE frames and responses stay queued
+            plan.stall_e_writes = t.chance(Lane::Peer, 3, 4);
+            plan.caps[1] = (*t.pick(Lane::Cfg, &[256usize, 4096, 65_536]), *t.pick(Lane::Cfg, &[256usize, 4096]));
+            for sp in plan.sprogs.iter_mut() {
+                for i in 0..(1 + t.draw(Lane::Work, 3)) {
+                    sp.pushes.push(PushProg {
+                        head: gen_headers(t, 2, 200),
+                        path: format!("/pushed/{}/{}", i, t.draw(Lane::Work, 1000)),
+                        resp_status: 200,
+                        resp_headers: gen_headers(t, 2, 200),
+                        eos_on_headers: t.chance(Lane::Work, 1, 2),
+                        body: BodyPlan { chunks: vec![Chunk { len: t.draw(Lane::Work, 3000) as usize, mode: ChunkMode::Direct }], end: EndMode::OnLastData, abort: Abort::None, wait_reset: false, late_ops: 0 },
+                    });
+                }
+                sp.respond_delay = *t.pick(Lane::Work, &[0u32, 1, 5, 30]);
+                sp.body = BodyPlan { chunks: vec![Chunk { len: *t.pick(Lane::Work, &[0usize, 100, 20_000, 60_000]), mode: ChunkMode::Direct }], end: EndMode::OnLastData, abort: Abort::None, wait_reset: false, late_ops: 0 };
+            }
+            plan.script.push(PeerOp::Pause(t.draw(Lane::Peer, 40)));
+            let code = *t.pick(Lane::Peer, &[NO_ERROR, NO_ERROR, PROTOCOL_ERROR, CANCEL, 0xdead_beef]);
+            let last = *t.pick(Lane::Peer, &[0u32, 0, 2, 4, 0x7fff_ffff]);
+            plan.script.push(PeerOp::GoAway(last, code, vec![]));
+            plan.script.push(PeerOp::Barrier);
+            if t.chance(Lane::Peer, 1, 2) {
+                plan.script.push(PeerOp::GoAway(0, code, vec![]));
+            }
+            plan.script.push(PeerOp::Barrier);
+            plan.script.push(PeerOp::Fin);
         }
         T2Kind::Hpack => {
             plan.label = "hpack-valid".into();
@@ -1294,6 +1331,9 @@ pub fn run_t2(profile: &T2Profile, tape: Tape, want_sample: bool) -> RunOut {
     peer.script = plan.script.iter().cloned().collect();
     peer.resp_plans = plan.resp_plans.clone();
     peer.snapshot_streams = profile.kind == T2Kind::Graceful;
+    if plan.peer_withholds_settings_ack {
+        peer.auto_ack_settings = false;
+    }
     let obs = peer.obs.clone();
     let barriers = peer.barriers.clone();
     exec.spawn("p:peer", PeerFuture(peer));
@@ -1305,6 +1345,13 @@ pub fn run_t2(profile: &T2Profile, tape: Tape, want_sample: bool) -> RunOut {
     }
     let mut mon = Monitor::new([plan.e_client, !plan.e_client]);
     mon.ep[e_side].max_conn_target = plan.ecfg.conn_target().max(65_535) as i64;
+    if plan.flood.is_some() {
+        // h2 allows max(5, 1.25 x max_header_list_size / max_frame_size) non-final frames;
+        // the assertion leaves twice that plus slack
+        let mhls = plan.ecfg.max_header_list_size.unwrap_or(16 << 20) as usize;
+        let mfs = plan.ecfg.mfs() as usize;
+        mon.ep[e_side].max_continuations_allowed = Some(2 * (mhls / mfs.max(1)) + 16);
+    }
     let mut evbuf: Vec<h2::verif::Ev> = Vec::new();
     let mut problems: Vec<String> = Vec::new();
     let mut resets_seen = 0usize;
